@@ -219,6 +219,21 @@ func TestC13(t *testing.T) {
 			apply(op)
 		}
 		live := liveFilters(it.M)
+		// filters are often used for batch operations before they are queried: call Batch(rel...) on some of them
+		for _, fi := range live {
+			f := it.M.Filters[fi]
+			if f.Inst >= 0 && f.Mask()&comps.RelMask != 0 && rapid.Bool().Draw(rt, "priorBatchCall") {
+				var rs []RelSpec
+				fixed := uint16(0)
+				for _, r := range f.Rels {
+					fixed |= 1 << uint(r.C)
+				}
+				for _, c := range listOf(f.Mask() & comps.RelMask &^ fixed) {
+					rs = append(rs, RelSpec{C: c, T: g.pickTarget(rt), S: rapid.IntRange(0, 2).Draw(rt, "relStyle")})
+				}
+				apply(&Op{K: "batchCall", F: fi, QRels: rs})
+			}
+		}
 		ng := rapid.SampledFrom([]int{2, 2, 3, 4, 8, 16, 32, 64}).Draw(rt, "goroutines")
 		cc := &concCase{Property: "C13", Kind: "concurrent", Cfg: cfg, Procs: rapid.SampledFrom([]int{2, 16}).Draw(rt, "gomaxprocs")}
 		shareOne := rapid.Bool().Draw(rt, "shareOneFilter")
